@@ -15,38 +15,85 @@ GEN_FILE = os.path.join(vlib.LEAN, "HeimdallModel", "Gen", "AuthnSites.lean")
 # ---------------------------------------------------------------------------------------------------------------
 # the tie by regenerated facts
 
-def regenerate(R):
-    """Gen/AuthnSites.lean from the working tree of the repository (go/ast extractor, fails closed).
-    Returns (facts summary, error)."""
-    if os.path.exists(GEN_FILE):
-        os.remove(GEN_FILE)
+FAILED_FACTS = ("import HeimdallModel.Model.Authn\n/-! GENERATED: extraction failed -/\n"
+                "namespace Heimdall.Authn.Gen\nopen Heimdall.Authn\n"
+                + "".join(f"def {n} : FileFacts := ⟨[[.k .noRule]], [[.k .argument]], [.k .noRule]⟩\n" for n in
+                          ("anonymous", "unauthorized", "basic", "jwt", "introspection", "generic",
+                           "headerExtractor", "queryExtractor", "cookieExtractor", "bodyExtractor",
+                           "compositeExtractor"))
+                + "def argumentMentionsElsewhere : Nat := 999\ndef supportedAlgorithms : List Alg := []\n"
+                  "def compositeGuard : Guard := ⟨false, false, 999⟩\nend Heimdall.Authn.Gen\n")
+
+
+def extract(R, repo):
+    """run the go/ast extractor on a tree; returns (text of Gen/AuthnSites.lean, error)"""
     exe = os.path.join(R.tmp, "authn_extract")
-    p = subprocess.run(["go", "build", "-o", exe, "."], cwd=os.path.join(vlib.VERIF, "extract", "authn"),
-                       env=vlib.go_env(), capture_output=True, text=True, timeout=600)
+    if not os.path.exists(exe):
+        p = subprocess.run(["go", "build", "-o", exe, "."], cwd=os.path.join(vlib.VERIF, "extract", "authn"),
+                           env=vlib.go_env(), capture_output=True, text=True, timeout=600)
+        if p.returncode != 0:
+            return None, "extractor does not build: " + p.stderr[-800:]
+    p = subprocess.run([exe, repo], env=vlib.go_env(), capture_output=True, text=True, timeout=300)
     if p.returncode != 0:
-        return None, "extractor does not build: " + p.stderr[-800:]
-    p = subprocess.run([exe, vlib.REPO], capture_output=True, text=True, timeout=120)
-    if p.returncode != 0:
-        # keep the Lean project buildable: facts that cannot match the model
-        with open(GEN_FILE, "w") as fh:
-            fh.write("import HeimdallModel.Model.Authn\n/-! GENERATED: extraction failed -/\n"
-                     "namespace Heimdall.Authn.Gen\nopen Heimdall.Authn\n"
-                     + "".join(f"def {n} : FileFacts := ⟨[[.k .noRule]], [[.k .argument]], [.k .noRule]⟩\n" for n in
-                               ("anonymous", "unauthorized", "basic", "jwt", "introspection", "generic",
-                                "headerExtractor", "queryExtractor", "cookieExtractor", "bodyExtractor",
-                                "compositeExtractor"))
-                     + "def argumentMentionsElsewhere : Nat := 999\n"
-                       "def compositeGuard : Guard := ⟨false, false, 999⟩\nend Heimdall.Authn.Gen\n")
         return None, "extractor failed closed: " + p.stderr[-800:]
-    with open(GEN_FILE, "w") as fh:
-        fh.write(p.stdout)
-    sites = p.stdout.count("[.k ") + p.stdout.count("[.dyn")
-    guard = [l.strip() for l in p.stdout.splitlines() if l.strip().startswith("{ onArgument")]
+    return p.stdout, None
+
+
+def write_gen(text):
+    """replace Gen/AuthnSites.lean in one step: the file is never missing and never half written"""
+    tmp = GEN_FILE + f".tmp{os.getpid()}"
+    with open(tmp, "w") as fh:
+        fh.write(text)
+    os.replace(tmp, GEN_FILE)
+
+
+class _Held:
+    """stands in for vlib.LeanLock while this process already holds it"""
+
+    def __enter__(self):
+        return self
+
+    def __exit__(self, *a):
+        return False
+
+
+def lean_step(R):
+    """Regenerate Gen/AuthnSites.lean from the tree under test and build the theorems *inside one critical section*
+    of the shared Lean project: two runs against different trees (VERIF_REPO) cannot build against each other's
+    facts. Returns (facts summary, tie error, lean ok)."""
+    text, err = extract(R, vlib.REPO)
+    with vlib.LeanLock():
+        write_gen(text if text is not None else FAILED_FACTS)
+        orig = vlib.LeanLock
+        vlib.LeanLock = _Held
+        try:
+            ok = vlib.step_lean(R, PID)
+        finally:
+            vlib.LeanLock = orig
+    if text is None:
+        return None, err, ok
+    sites = text.count("[.k ") + text.count("[.dyn")
+    guard = [l.strip() for l in text.splitlines() if l.strip().startswith("{ onArgument")]
     others = sum(blk.split("loose :=")[0].count("[.k ") + blk.split("loose :=")[0].count("[.dyn")
-                 for blk in p.stdout.split("others := ")[1:])
+                 for blk in text.split("others := ")[1:])
+    import re
+    m = re.search(r"of the (\d+) packages", text)
     return {"error_constructor_expressions": sites, "of_them_outside_the_entry_methods": others, "files": 11,
+            "packages_scanned_for_ErrArgument": int(m.group(1)) if m else None,
             "composite_guard": guard[0] if guard else None,
-            "argument_mentions": p.stdout.count(".k .argument")}, None
+            "supported_algorithms": text.split("def supportedAlgorithms : List Alg :=")[1].split("]")[0].count("."),
+            "argument_mentions": text.count(".k .argument")}, None, ok
+
+
+def restore_gen(R):
+    """after a run against a scratch tree: put the facts of /repo back, so that the shared Lean project is left as
+    a run against /repo would leave it"""
+    if os.path.realpath(vlib.REPO) == "/repo" or not os.path.isdir("/repo"):
+        return
+    text, _ = extract(R, "/repo")
+    if text is not None:
+        with vlib.LeanLock():
+            write_gen(text)
 
 
 # ---------------------------------------------------------------------------------------------------------------
@@ -78,13 +125,13 @@ def verdicts(case, i, m):
         if not st.get("agrees", False):
             out.append((k, "driver", "model and reference semantics disagree (contradicts c04_model_meets_spec)"))
         if m["spec"][k] is not True:
-            out.append((k, "impl-vs-spec", describe_spec_failure(case, k, a, st)))
+            out.append((k, "impl-vs-spec", describe_spec_failure(case, k, a, st, b)))
         elif vlib.canon(a) != vlib.canon(b):
             out.append((k, "impl-vs-model", f"answer {json.dumps(a)} differs from the model's {json.dumps(b)}"))
     return out
 
 
-def describe_spec_failure(case, k, a, st):
+def describe_spec_failure(case, k, a, st, model=None):
     trace = a.get("trace", []) if isinstance(a, dict) else []
     ids = [t[0] for t in trace]
     usable = st.get("usable", [])
@@ -95,11 +142,29 @@ def describe_spec_failure(case, k, a, st):
         m = mech[steps[j]["ref"]]
         if m["type"] in ("anonymous", "unauthorized"):
             return False
-        return steps[j]["fb"] if isinstance(steps[j].get("fb"), bool) else bool(m.get("fb"))
+        return steps[j]["fb"] if isinstance(steps[j].get("fb"), bool) else bool(m.get("fb", False))
+
+    def why(j):
+        m = mech[steps[j]["ref"]]
+        if isinstance(steps[j].get("fb"), bool) or "fb" in m or m["type"] in ("anonymous", "unauthorized"):
+            return "does not allow fallback"
+        return "does not allow fallback (allow_fallback_on_error is not set anywhere: the default)"
+    mtrace = (model or {}).get("trace", [])
+    for j in range(min(len(trace), len(mtrace))):
+        if "ok" in trace[j][1] and "err" in mtrace[j][1]:
+            return (f"authenticator {ids[j]} ({mech[steps[j]['ref']]['type']}) accepted a credential that has to be "
+                    f"rejected (by construction of the credential: {mtrace[j][1]['err']}) and produced the subject "
+                    f"{trace[j][1]['ok']!r}; answer {json.dumps(a)}")
+        if "err" in trace[j][1] and "ok" in mtrace[j][1]:
+            return (f"authenticator {ids[j]} ({mech[steps[j]['ref']]['type']}) rejected ({trace[j][1]['err']}) a "
+                    f"credential that is valid by construction (subject {mtrace[j][1]['ok']!r}); answer {json.dumps(a)}")
+        if "ok" in trace[j][1] and "ok" in mtrace[j][1] and trace[j][1]["ok"] != mtrace[j][1]["ok"]:
+            return (f"authenticator {ids[j]} produced the subject {trace[j][1]['ok']!r} instead of "
+                    f"{mtrace[j][1]['ok']!r}; answer {json.dumps(a)}")
     for j in range(len(trace) - 1):
         if j < len(usable) and usable[j] and j < len(steps) and not fb(j) and "err" in trace[j][1]:
             return (f"authenticator {ids[j]} ({mech[steps[j]['ref']]['type']}) found credentials of its kind, failed on "
-                    f"them ({trace[j][1]['err']}) and does not allow fallback, yet {ids[j + 1]} was consulted; "
+                    f"them ({trace[j][1]['err']}) and {why(j)}, yet {ids[j + 1]} was consulted; "
                     f"answer {json.dumps(a)}")
     if trace and len(trace) < len(steps) and "err" in trace[-1][1]:
         j = len(trace) - 1
@@ -208,12 +273,114 @@ def witness_cases():
              rq(query=[("token", "opq-alice")]), rq([("X-Token", "Bearer opq-inactive")])]
     cases.append(gen_authn.assemble([intro, anon], [strict, {"ref": "a3"}, {"ref": "a2"}], reqs3,
                                     "rule-level assertions, responses served from the cache", cache=True))
-    return cases
+    return cases + list(named_cases().values())
+
+
+def named_cases():
+    """boundary cases added after the review of the check (also stored in corpus/C04/16… – 23…)"""
+    mk = gen_authn._std_mech
+    b = gen_authn.b64
+
+    def rq(headers=(), query=(), cookies=(), body=None, **kw):
+        r = {"method": "POST" if body else "GET", "headers": [list(h) for h in headers],
+             "query": [list(q) for q in query], "cookies": [list(c) for c in cookies]}
+        if body:
+            r["body"] = body
+        for k, v in kw.items():
+            if k in ("rawQuery", "rawCookies"):
+                r.pop("query" if k == "rawQuery" else "cookies")
+            r[k] = v
+        return r
+    anon = mk("anonymous", 9, None)
+    res = {}
+    # 16: allow_fallback_on_error is not written anywhere
+    dj, db, di, dg = mk("jwt", 0, None), mk("basic_auth", 1, None), mk("oauth2_introspection", 3, None), mk("generic", 4, None)
+    res["16_fallback_is_off_unless_it_is_switched_on"] = gen_authn.assemble(
+        [dj, db, di, dg, anon], [{"ref": "a0"}, {"ref": "a1"}, {"ref": "a3"}, {"ref": "a4"}, {"ref": "a9"}],
+        [rq([("Authorization", "Bearer @Jbadsig@")]), rq([("Authorization", "Basic " + b("user:wrong"))]),
+         rq([("X-Token", "Bearer opq-inactive")]), rq(cookies=[("sess", "sess-expired")]), rq()],
+        "allow_fallback_on_error stands neither in the mechanism definitions nor in the rule: every rejection is "
+        "final although anonymous follows; only the request without credentials reaches anonymous")
+    # 17: unauthorized ignores whatever its configuration says
+    res["17_unauthorized_never_falls_back_whatever_is_configured"] = gen_authn.assemble(
+        [dict(mk("unauthorized", 5, True)), anon], [{"ref": "a5", "fb": True}, {"ref": "a9"}], [rq()],
+        "allow_fallback_on_error: true in the definition and in the rule's step of `unauthorized`: still final")
+    # 18: what a JWT is
+    toks = ["@Jhs@", "@Jrs@", "@Jps@", "@Jed@"] + gen_authn.NOT_JWTS + ["opq-alice"]
+    res["18_what_a_jwt_is"] = gen_authn.assemble(
+        [mk("jwt", 0, False), anon], [{"ref": "a0"}, {"ref": "a9"}],
+        [rq([("Authorization", "Bearer " + t)]) for t in toks],
+        "tokens of JWS compact form naming a supported signature algorithm (HS256, RS256, PS256, EdDSA; signed with keys "
+        "that are not published) are credentials of the jwt authenticator: rejected, final. `alg: none`, an unknown "
+        "algorithm, a header that is no JSON / names no algorithm, strings of another form: no credentials of its kind, "
+        "the next authenticator is asked")
+    # 19: tokens without kid are tried against every key of the set (k2 first, k1 last)
+    res["19_tokens_without_kid"] = gen_authn.assemble(
+        [mk("jwt", 0, False), anon], [{"ref": "a0"}, {"ref": "a9"}],
+        [rq([("Authorization", "Bearer " + t)]) for t in
+         ("@Jnokid@", "@Jnokid2@", "@Jnokidexpired@", "@Jnokid2expired@", "@Jnokidevil@", "@Jbadsignokid@", "@Jps@")],
+        "a token without kid is accepted only if one key verifies its signature AND its claims pass; an expired one "
+        "signed by the last key of the set must not be accepted (caught seed C04-c)")
+    # 20: header names in any spelling, Host
+    lower = dict(mk("oauth2_introspection", 3, False), src=[{"k": "header", "name": "x-token", "scheme": "Bearer"}])
+    host = dict(mk("generic", 4, False), src=[{"k": "header", "name": "Host", "scheme": ""}])
+    res["20_header_names_and_host"] = gen_authn.assemble(
+        [lower, host, anon], [{"ref": "a3"}, {"ref": "a4"}, {"ref": "a9"}],
+        [rq([("X-Token", "Bearer opq-inactive")]), rq([("x-token", "Bearer opq-alice")]),
+         rq([("X-TOKEN", "Bearer opq-inactive")]), rq(host="sess-carol"), rq(host="heimdall.local"), rq(host="")],
+        "header names are compared in canonical form on both sides (configuration `x-token`, request `X-TOKEN`); a "
+        "`Host` source reads the host of the request, which is practically never empty")
+    # 21: what net/http and net/url drop is missing for the extractors
+    std = [mk("jwt", 0, False), dict(mk("generic", 4, False)), anon]
+    res["21_cookies_and_query_parameters_dropped_by_the_parsers"] = gen_authn.assemble(
+        std, [{"ref": "a0"}, {"ref": "a4"}, {"ref": "a9"}],
+        [rq(rawCookies=['sess=sess-401']), rq(rawCookies=['sess=sess-401"']), rq(rawCookies=['sess=sess-401\\']),
+         rq(rawCookies=['sess=sess-c\u00e4rol']), rq(rawCookies=['sess="sess-carol"']),
+         rq(rawCookies=['other=1', ' sess = sess-carol ; x=y']), rq(rawCookies=['bad name=1; sess=sess-expired']),
+         rq(rawQuery="access_token=@Jbadsig@"), rq(rawQuery="access_token=@Jbadsig@;x=1"),
+         rq(rawQuery="access_token=@Jbadsig@%zz"), rq(rawQuery="x=1;y=2&access_token=@Jexpired@"),
+         rq(rawQuery="access_token=%20@Jok@+"), rq(rawQuery="access_token&access_token=@Jok@")],
+        "a cookie whose value contains a quote, a backslash or a non-ASCII character, a query parameter followed by "
+        "`;` or containing a bad escape do not exist for the extractors (net/http, net/url drop them): the request "
+        "carries no credentials there and the next authenticator is asked; well-formed ones are credentials")
+    # 22: a failing template function is a failure after the credential was found
+    tpl = dict(mk("generic", 4, False), src=[{"k": "header", "name": "X-Api-Key", "scheme": ""}], tpl=True, lifespan=False)
+    res["22_failing_payload_template_is_final"] = gen_authn.assemble(
+        [tpl, anon], [{"ref": "a4"}, {"ref": "a9"}],
+        [rq([("X-Api-Key", "key7.sess-carol")]), rq([("X-Api-Key", "key7.sess-401")]), rq([("X-Api-Key", "nodot")]),
+         rq()],
+        "api keys <id>.<secret>, the payload template picks the secret with atIndex 1 (splitList …): a key without "
+        "separator makes the template function fail — an internal error after the credential was found, not "
+        "missing credentials (caught seed C04-e)")
+    # 23: YAML bodies
+    res["23_yaml_body"] = gen_authn.assemble(
+        [mk("jwt", 0, False), anon], [{"ref": "a0"}, {"ref": "a9"}],
+        [rq(body=gen_authn.render_body("yaml", [("access_token", "@Jbadsig@")])),
+         rq(body=gen_authn.render_body("yaml", [("access_token", ["@Jok@"])])),
+         rq(body=gen_authn.render_body("yaml", [("access_token", ["@Jok@", "x"])])),
+         rq(body=gen_authn.render_body("yaml", [("access_token", 5)]))],
+        "body parameters of a YAML body")
+    return res
+
+
+def config_reject_cases():
+    """`anonymous` does not know allow_fallback_on_error: a definition or a rule step that carries it is rejected when
+    the configuration / the rule is loaded (so no configuration can make it fall back)"""
+    mk = gen_authn._std_mech
+    a = mk("anonymous", 0, None)
+    return [gen_authn.assemble([dict(a, fb=True)], [{"ref": "a0"}], [{"method": "GET", "headers": []}]),
+            gen_authn.assemble([a], [{"ref": "a0", "fb": True}], [{"method": "GET", "headers": []}])]
 
 
 def run(R):
-    facts, tie_error = regenerate(R)
-    lean_ok = vlib.step_lean(R, PID)
+    try:
+        run_checks(R)
+    finally:
+        restore_gen(R)
+
+
+def run_checks(R):
+    facts, tie_error, lean_ok = lean_step(R)
     exe = vlib.step_harness(R)
     if exe is None:
         R.violation("harness does not build against /repo (API used by the correspondence check changed)",
@@ -238,6 +405,14 @@ def run(R):
     for c, i, m in zip(cases, impl, model):
         for v in verdicts(c, i, m):
             bad.append((c, i, m, v))
+
+    # configurations that must be rejected: `anonymous` with allow_fallback_on_error
+    rejected = vlib.run_cases([exe], config_reject_cases())
+    for c, i in zip(config_reject_cases(), rejected):
+        if not (isinstance(i, dict) and ("config_error" in i or "rule_error" in i)):
+            bad.append((c, i, None, (None, "impl-vs-spec-config",
+                                     "an `anonymous` authenticator configured with allow_fallback_on_error is accepted "
+                                     f"(it has to be rejected when the configuration / the rule is loaded): {str(i)[:300]}")))
 
     # ---- evidence
     labels = collections.Counter()
@@ -295,9 +470,12 @@ def run(R):
                     {k: v for k, v in rnd[-1].items() if k in ("mechs", "steps")}, rnd[-1]["reqs"][:2]],
         "extracted_facts": facts if facts is not None else "extraction failed: " + str(tie_error),
         "small_scope": ("all chains of pairwise different authenticator types of length <= "
-                        + ("2" if quick else "3") + " x all fallback settings (by definition, and inverted by the rule) "
-                        "x the product of the credential states (none / foreign scheme / malformed / invalid / "
-                        "expired / valid) of their members"),
+                        + ("2" if quick else "3") + " x fallback settings of each member (left out / false / true in the "
+                        "definition; and inverted by the rule's step) x the combinations of the credential states "
+                        "(none / foreign scheme / malformed / invalid / expired / valid) of their members — except "
+                        "combinations that would need two different values of one header line (basic_auth and jwt both "
+                        "read Authorization: only one of them carries a credential per request)"),
+        "config_reject_cases": len(rejected),
         "exhaustive": False,
     })
     R.assumptions += [
@@ -310,11 +488,21 @@ def run(R):
         "the real authenticators return; errors of other libraries never match a heimdall sentinel",
         "a list of sources is never empty (CompositeExtractStrategy panics on an empty list: property C19)",
         "requests are handed to the real request context in process (no HTTP/1.1 parser in front): header values "
-        "may carry leading / trailing blanks a real server would have removed; header names are canonical; the "
-        "Host pseudo-header is not used as a credential source; body decoding (JSON / form) is represented by the "
-        "generator's own rendering of the body it parsed",
-        "SHA-256 comparison of Basic credentials is modelled as string equality; caches are absent (cache.Ctx "
-        "yields the no-op cache), see C10/C11 for cached results",
+        "may carry leading / trailing blanks a real server would have removed; header names are generated in any "
+        "spelling and compared in canonical form (modelled CanonicalMIMEHeaderKey), `Host` is the host of the request; "
+        "body decoding (JSON / form / YAML) is represented by the generator's own rendering of the body it parsed",
+        "SHA-256 comparison of Basic credentials is modelled as string equality; half of the random cases run with "
+        "a real in-memory cache in the request context (requests repeated, so cached keys / introspection responses / "
+        "identities are hit), the others with the no-op cache; what is cached for how long is the subject of C10/C11",
+        "what is a JWT: three base64url parts separated by dots (modelled) whose decoded header names a supported "
+        "signature algorithm (the decoding of the header is a parameter of the model, World.headerAlg; the "
+        "correspondence run instantiates it with tokens really signed with ES256, HS256, RS256, PS256, EdDSA and with "
+        "hand-made tokens naming `none` / an unknown algorithm / no algorithm / no JSON)",
+        "raw query strings and raw Cookie header lines are read by models of url.ParseQuery / net/http readCookies "
+        "(Model/AuthnWire.lean), validated by the correspondence run on well-formed and on dropped forms; bytes >= 0x80 "
+        "produced by percent-decoding are outside the model",
+        "the Envoy ext_authz request context (its own Header / Cookie / Body code) is not run here: property C13 "
+        "compares the request views of the three entry points",
         "time: credentials expire at least one hour before / after the run, no boundary of the 10 s leeway is "
         "approached",
     ]
@@ -337,8 +525,10 @@ def run(R):
         seen.add(sig)
         reported += 1
         if k is None:
-            R.violation({"impl-crash": "the implementation side crashed: ", "driver": "model driver: "}[kind] + detail,
-                        {"case": c, "impl": i, "model": vlib.res_of(m), "kind": kind}, no_input=(kind == "driver"))
+            R.violation({"impl-crash": "the implementation side crashed: ", "driver": "model driver: ",
+                         "impl-vs-spec-config": "authentication with fallback violates the property: "}[kind] + detail,
+                        {"case": c, "impl": i, "model": vlib.res_of(m) if m is not None else None, "kind": kind},
+                        no_input=(kind == "driver"))
             continue
         sc, sk = shrink(exe, c, k, kind)
         si, sm = run_pair(exe, [sc])
